@@ -217,6 +217,74 @@ def run_case(case, ctx):
     else:
         ctx.count("whole_array_checks", 0)
 
+    # request ledger over EVERY metric: all the arrays one score evaluation fetches for (input, axis, slice) hold the same cases,
+    # and the same number of cases for every input
+    if kind in ("prob", "det", "pit") and not case.get("fss"):
+        import verif.axis
+        import verif.metric
+        import verif.util
+        i0_ = ds["inputs"][0]
+        th_, qs_ = i0_["thresholds"], i0_["quantiles"]
+        data = vutil.build_data(paths, cpath, opts)
+        calls = {}
+        orig_gs = data.get_scores
+
+        def spy_gs(fields_, input_index, axis_=None, axis_index=None):
+            r = orig_gs(fields_, input_index, axis_, axis_index) if axis_ is not None else orig_gs(fields_, input_index)
+            res = r if isinstance(r, list) else [r]
+            if axis_ is not None and axis_ != verif.axis.All():
+                calls.setdefault((axis_.name(), axis_index), {}).setdefault(input_index, []).append([len(x) for x in res])
+            return r
+        data.get_scores = spy_gs
+        vax = vutil.vaxis(random.Random(len(paths) + len(ds["inputs"][0]["cells"])).choice(["leadtime", "location", "time", "no"]))
+        for mname, mcls in verif.metric.get_all():
+            if not mcls.is_valid():
+                continue
+            try:
+                m = mcls()
+            except Exception:
+                continue
+            rt = getattr(m, "require_threshold_type", None)
+            if rt == "threshold" and not th_:
+                continue
+            if rt == "quantile" and not qs_:
+                continue
+            if rt == "threshold":
+                ivs = [verif.util.get_intervals("above", np.array([th_[0]]))[0]]
+                if len(th_) >= 2:
+                    ivs.append(verif.util.get_intervals("within", np.array([th_[0], th_[-1]]))[0])
+            elif rt == "quantile":
+                ivs = [verif.util.get_intervals("above", np.array([qs_[0]]))[0]]
+                if len(qs_) >= 2:
+                    ivs.append(verif.util.get_intervals("within", np.array([qs_[0], qs_[-1]]))[0])
+            else:
+                ivs = [verif.util.get_intervals("above", np.array([5.0]))[0]]
+            for iv in ivs:
+                calls.clear()
+                ok_ = True
+                for k in range(F):
+                    try:
+                        m.compute(data, k, vax, iv)
+                    except (SystemExit, Exception):
+                        ok_ = False
+                        break
+                if not ok_:
+                    continue
+                ctx.count("request_ledger_metrics")
+                for (an, idx), per in calls.items():
+                    lens = set()
+                    for k, lst in per.items():
+                        for ls in lst:
+                            lens.update(ls)
+                    # the "no valid case" placeholder has length 1; otherwise every array of every input has the same length
+                    if len(lens) > 1:
+                        ctx.violation("score-mixes-case-sets|%s" % mname.lower(),
+                                      "-m %s (interval %s) axis %s slice %s: the arrays fetched for one score have lengths %s "
+                                      "(per input: %s)" % (mname.lower(), iv, an, idx, sorted(lens), per), case)
+                        break
+        data.get_scores = orig_gs
+        ctx.case("%d|%s|%s|request-ledger" % (F, bool(cpath), fmts), F >= 2)
+
     # metric-entry ledger: how many cases enter a probabilistic score, per input (a score must not drop cases on its own)
     if kind == "prob":
         import verif.metric
